@@ -110,10 +110,35 @@ def _is_true_nan(x):
     return isinstance(x, (float, np.floating)) and x != x
 
 
+def _num_twin(v, how):
+    """the same value with every small int / integral float leaf written as a numerically equal number of another type, at any depth"""
+    if isinstance(v, bool) or v is None or isinstance(v, str):
+        return v
+    if isinstance(v, int):
+        if abs(v) >= 2 ** 53:
+            return v
+        return float(v) if how == 0 else ['np', 'int64', v] if how == 1 else ['np', 'float64', float(v)]
+    if isinstance(v, float):
+        return int(v) if v == int(v) and abs(v) < 2 ** 53 and how != 2 else (['np', 'float64', v] if how == 2 and abs(v) < 1e200 else v)
+    t = v[0]
+    if t in ('list', 'tuple'):
+        return [t, [_num_twin(x, how) for x in v[1]]]
+    if t == 'dict':
+        return [t, [[k, _num_twin(x, how)] for k, x in v[1]]]
+    return v
+
+
 def run_cmp_laws(spec):
     from pyg_base import cmp
     env = Env()
     x, y, z = [build(v, env) for v in spec]
+    # numerically equal ints and floats compare 0 - also inside tuples, lists and dict values
+    for how in (0, 1, 2):
+        tw = _num_twin(spec[0], how)
+        if tw != spec[0]:
+            a, b = build(spec[0], Env()), build(tw, Env())
+            r = call('cmp(%s, %s)' % (short(a, 80), short(b, 80)), cmp, a, b)
+            check(r == 0, 'cmp(%s, %s) = %s although the two differ only in how numerically equal numbers are written (int / float / numpy scalar)', a, b, r)
     vals = [x, y, z]
     c = {}
     for i in range(3):
